@@ -395,6 +395,29 @@ class P6eInstr(Program):
                 receiver(rec, 2, p, 'q', [('poll', 2, 9)])]
 
 
+class ObjectQueuePort(QueuePort):
+    """Producers that hand over message objects (ParserQueue.put - what a backend's callback thread does with an
+    already decoded message) rather than bytes."""
+    def send(self, m):
+        self.q.put(m.copy())
+
+
+class P6fPutObjects(Program):
+    """Two producers put() message objects, a third feeds bytes; one poller."""
+    name = 'P6f-parserqueue-put-objects'
+
+    def build(self, sc, rec):
+        q = ParserQueue()
+        q._parser_lock = self.wraplock(sc, q._parser_lock, 'pq')
+        p, pb = ObjectQueuePort(q), QueuePort(q)
+        self.ports = {'q': p}
+        self.keep = (pb,)
+        self.wires = []
+        self.route = lambda pname: ['q']
+        return [sender(rec, 0, p, 'q', 0, (0, 1), (0, 1)), sender(rec, 1, p, 'q', 1, (0, 1), (1, 0)),
+                sender(rec, 2, pb, 'q', 2, (0,), (2,)), receiver(rec, 3, p, 'q', [('poll', 3, 9), ('iter_pending',)])]
+
+
 class P6cParserQueueLong(Program):
     """Two producers, one of them hands over a 2.5 KB sysex in one put_bytes() call.  Only the lines of
     _parser_queue.py yield here (the tokenizer would add ~10 steps per byte)."""
@@ -592,7 +615,7 @@ class P2bIterators(Program):
 
 PROGRAMS = [P1Wire, P2Echo, P3IOPort, P4Fanout, P4Fanin, P5IterPending, P6ParserQueue, P6bParserQueuePollers,
             P7SocketPair, P6cParserQueueLong, P8ParseAll, P9PanicVsSend, P6dTwoQueues, P6eInstr, P4cFaninTwoReceivers,
-            P3bIOPortFailingDevice, P4dFanoutMemberCloses, P1bSharedStateDevice, P2bIterators]
+            P3bIOPortFailingDevice, P4dFanoutMemberCloses, P1bSharedStateDevice, P2bIterators, P6fPutObjects]
 
 
 class LockShim:
